@@ -280,6 +280,14 @@ def oracle(case, resps):
         segs = q["path"].strip("/").split("/")
         known = {p["name"]: p for p in before[1]}
         now = {p["name"]: p for p in (after[1] if after[0] == "proxies" else [])}
+        # what the API lists as enabled is what really listens: every enabled proxy's address accepts connections, nothing else does
+        if "listening" in resp and after[0] == "proxies":
+            want = sorted(p["listen"] for p in now.values() if p["enabled"])
+            got = sorted(resp["listening"])
+            probes = set(a for a, port in (case.get("env") or []) if port is not None)
+            if got != sorted(a for a in want if a in probes):
+                return (i, "after %s %s (status %d) the addresses %s accept connections but the API lists %s as enabled"
+                        % (q["method"], q["path"], st, got, want))
         if q["browser"] and st not in (404, 405):
             if st != 403:
                 return (i, "a browser user agent was answered %d, not 403" % st)
